@@ -9,7 +9,11 @@ extern const char *kit_replay_kind[];
 extern const uint64_t kit_replay_val[];
 static int pos;
 static uint64_t next_val(const char *kind) {
-  if (pos >= kit_replay_n) { fprintf(stderr, "REPLAY: ran out of recorded inputs (wanted %s)\n", kind); exit(77); }
+  if (pos >= kit_replay_n) {
+    /* the trace ends at the first failing assertion: if the native run gets further, that assertion held natively */
+    fprintf(stderr, "REPLAY: past the end of the recorded inputs (wanted %s): the assertion that failed under cbmc held natively\n", kind);
+    exit(0);
+  }
   if (strcmp(kit_replay_kind[pos], kind) != 0) {
     fprintf(stderr, "REPLAY: input %d kind mismatch: recorded %s, wanted %s\n", pos, kit_replay_kind[pos], kind);
     exit(77);
